@@ -214,7 +214,7 @@ def build_extract():
         return True, out
     for f in srcs:
         shutil.copy(f, ex)
-    order = ["util.ml", "registry.ml"]
+    order = ["util.ml", "registry.ml", "str_split.ml"]
     mods = [os.path.basename(f) for f in srcs if os.path.basename(f) not in order + ["driver.ml"]]
     cmd = ["ocamlfind", "ocamlopt", "-O3", "-unboxed-types", "-w", "-a"]
     cmd = ["ocamlfind", "ocamlopt", "-w", "-a", "-inline", "100", "model.mli", "model.ml"] + order + sorted(mods) + ["driver.ml", "-o", exe]
